@@ -29,9 +29,10 @@ from . import featrange_units as FR
 
 LEVEL = "other"
 EXPLANATION = ("Deductive: ordering/selection contracts of get_feature_names and compute_features, guard and "
-               "predicate totality for every state of the fit properties, syntactic purity, closed-form range "
-               "lemmas. Bounded: numeric ranges, scale independence (gaussian filters, lstsq and std are external "
-               "numerics) and segment dependence on fitted curves.")
+               "predicate totality for every state of the fit properties, syntactic purity, and the fifteen feat_* "
+               "bodies executed symbolically on a fitted curve (arrays of any length; external filters, lstsq, std "
+               "under assumed contracts): no exception, no +-inf, NaN or inside the stated range. Bounded: scale "
+               "independence, segment dependence and numeric ranges on recorded and synthetic curve shapes.")
 MOD = "nanite.rate.features"
 
 
@@ -56,8 +57,8 @@ WT = ["all", "binary", "continuous", ["continuous", "binary"], ["binary", "conti
       ("binary",), "bogus"]
 
 
-def unit_feature_names(tier=None, seed=None):
-    S = Session("C17", "get_feature_names", f"{MOD}:IndentationFeatures.get_feature_names")
+def unit_feature_names(tier=None, seed=None, prop="C17"):
+    S = Session(prop, "get_feature_names", f"{MOD}:IndentationFeatures.get_feature_names")
     allf = FU.feature_names()
     st = {}
 
@@ -479,9 +480,14 @@ CANARIES = [
     dict(name="feature normalised by a constant instead of the maximum force", file="rate/features.py",
          old="            norm = xin.size * np.max(yin)", new="            norm = xin.size * 1e-9", expect="C17"),
     dict(name="else-branch returns 0 instead of NaN", file="rate/features.py",
-         old="            value = np.sum(indidx) * lz / gz\n                value = np.log(1 + value) / 10\n            else:\n                value = np.nan\n        else:\n            value = np.nan",
-         new="            value = np.sum(indidx) * lz / gz\n                value = np.log(1 + value) / 10\n            else:\n                value = np.nan\n        else:\n            value = 0",
+         old="                    value = np.log(1 + value) / 10\n            else:\n                value = np.nan\n        else:\n            value = np.nan",
+         new="                    value = np.log(1 + value) / 10\n            else:\n                value = np.nan\n        else:\n            value = 0",
          expect="nan_not_error_without_fit"),
+    dict(name="monotony divides by a zero sum of rising gradients again", file="rate/features.py",
+         old="                if gz == 0:\n", new="                if False:\n", expect="value.feat_con_idt_monotony"),
+    dict(name="75 percent maxima: one-sample interval allowed again", file="rate/features.py",
+         old="            if idmax - idmin > 1:\n", new="            if idmin != idmax:\n",
+         expect="value.feat_con_idt_maxima_75perc.never_raises"),
     dict(name="accessor reads the retract segment", file="rate/features.py",
          old='        seg = self.dataset["segment"] == 0\n        y = self.dataset[yaxis][seg].copy()',
          new='        seg = self.dataset["segment"] == 1\n        y = self.dataset[yaxis][seg].copy()', expect="C17"),
